@@ -629,7 +629,7 @@ PROPS["C02"]["explanation"] += (" C02_send_content_source_is_model: the splittin
     "the chunks of the model the bound theorems are about.")
 PROPS["C14"]["explanation"] += (" C14_process_source_is_model / C14_next_source_is_model / C14_drop_source_is_model: "
     "src/confirm.rs as translated from the source text on every run (Gen/SrcConfirm.v) is Model/Confirm.v step by step, "
-    "so the history theorems hold of the translated code.")
+    "so the history theorems hold of the translated code: C14_run_all_source_is_model states it for every valid history.")
 PROPS["C02"]["explanation"] += (" c01: every channel's publish, header and body frames are on the wire exactly as "
     "issued, once, in order, whole, also when the buffer is sealed by the close while half written.")
 PROPS["C02"]["trusted_base"] = PROPS["C02"]["trusted_base"] + L2_TRUSTED
